@@ -166,6 +166,16 @@ def install(handler, g):
                     bad.append("caller's group dict changed")
                 if out[0].get("betas") != (0.8, 0.9) or out[1].get("momentum") != 0.3:
                     bad.append("extra options not carried over")
+        if "iterated_once" in clause or "group_holds_exactly" in clause or "each_parameter_appends" in clause:
+            # a group whose "params" is a one-shot iterator (e.g. module.parameters())
+            qs = [uu.Parameter(torch.zeros(3, 4), "weight", 5), uu.Parameter(torch.zeros(6), "bias")]
+            try:
+                out = scaled_parameters([{"params": (q for q in qs), "lr": 0.25}], lambda p: 1.0, lr=0.5, weight_decay=0.0, allow_non_unit_scaling_params=cfg["allow"])
+                got = [q for g_ in out for q in g_["params"]]
+                if len(got) != len(qs) or any(a is not b for a, b in zip(got, qs)):
+                    bad.append(f"a group given as a generator of {len(qs)} parameters yields {len(got)} parameter(s) in the result (the iterator was consumed more than once)")
+            except Exception as e:
+                bad.append(f"generator-valued group: raised {type(e).__name__}: {e}")
         bad = sorted(set(bad))
         return bool(bad), "; ".join(bad) or "all clauses hold on the concrete instance"
 
